@@ -44,9 +44,8 @@ func (s *State) heap(name string, srt *Sort) *Term {
 		panic(fmt.Sprintf("heap family %s used at sorts %s and %s", name, o, srt))
 	}
 	heapSorts[name] = srt
-	if s.Epoch.IsConst() && s.Epoch.Val.Sign() == 0 {
-		return Var(name+"@0", srt)
-	}
+	// the never-written contents of a family are a function of the epoch (0 at entry; a fresh
+	// epoch after every total havoc), so that merged states whose epoch is an ite stay linked
 	return App("heap0|"+name, srt, s.Epoch)
 }
 
